@@ -34,6 +34,11 @@ UBSAN = ['-fsanitize=shift,signed-integer-overflow,integer-divide-by-zero,bounds
          '-fsanitize-trap=all']
 
 
+# H(interpose=True): linked real TUs are compiled so that out-of-line external functions stay interposable (never inlined into their callers
+# inside the TU) -- required when a harness overrides a method that has callers in the same TU (clang -O1 otherwise inlines the real body)
+INTERPOSE = ['-fPIC', '-fsemantic-interposition']
+
+
 def cxx_flags(defs=None, opt='-O1', ubsan=True, nofmt=False):
     # nofmt: False/True or a list of shadow-header directories under ref/ ('nofmt', 'nopool', ...) searched before the real tree
     shadows = (['nofmt'] if nofmt is True else list(nofmt or []))
@@ -79,8 +84,8 @@ class H:
     def __init__(self, name, src, entry, link=(), variants=None, defines=None, unwind=None, unwindset=None,
                  cbmc=(), tier='quick', timeout=300, route='B', functions=(), stubs=(), assumptions=(),
                  bounds='', checks=(), opt='-O1', backends=('default',), diff_runs=40, override=(),
-                 objbits=None, keep=(), tvariants=None, memunwind=72, noop=(), nofmt=False, shadow=(), allow_nobody=(), fsarray=256, entries=None, tentries=None, csrc=(), slice_formula=True, include_dirs=(), global_ctors=False, ubsan=True, witness_backends=()):
-        self.witness_backends = list(witness_backends); self.global_ctors = global_ctors; self.ubsan = ubsan; self.memunwind = memunwind; self.noop = list(noop); self.nofmt = (list(shadow) + (['nofmt'] if nofmt and 'nofmt' not in shadow else [])) or False; self.allow_nobody = list(allow_nobody); self.fsarray = fsarray; self.entries = entries; self.tentries = tentries   # entries: [(name, 'template,args'), ...] -> one shared build, one solver query per entry
+                 objbits=None, keep=(), tvariants=None, memunwind=72, noop=(), nofmt=False, shadow=(), allow_nobody=(), fsarray=256, entries=None, tentries=None, replace=None, interpose=False, csrc=(), slice_formula=True, include_dirs=(), global_ctors=False, ubsan=True, witness_backends=()):
+        self.witness_backends = list(witness_backends); self.global_ctors = global_ctors; self.ubsan = ubsan; self.memunwind = memunwind; self.noop = list(noop); self.nofmt = (list(shadow) + (['nofmt'] if nofmt and 'nofmt' not in shadow else [])) or False; self.allow_nobody = list(allow_nobody); self.fsarray = fsarray; self.replace = dict(replace or {}); self.interpose = interpose; self.entries = entries; self.tentries = tentries   # entries: [(name, 'template,args'), ...] -> one shared build, one solver query per entry
         self.name = name; self.src = src; self.entry = entry; self.link = list(link)
         self.variants = variants or [{}]; self.tvariants = tvariants  # thorough-tier variants (default: same)
         self.defines = defines or {}
@@ -101,9 +106,9 @@ def sha(s):
     return hashlib.sha256(s if isinstance(s, bytes) else s.encode()).hexdigest()
 
 
-def compile_ir(path, defs, work, opt='-O1', tag=None, overlay_rules=True, ubsan=True, nofmt=False):
+def compile_ir(path, defs, work, opt='-O1', tag=None, overlay_rules=True, ubsan=True, nofmt=False, extra_flags=()):
     """C++ file -> LLVM IR text file; content-addressed cache on the preprocessed source."""
-    flags = cxx_flags(defs, opt, ubsan, nofmt)
+    flags = cxx_flags(defs, opt, ubsan, nofmt) + list(extra_flags)
     src = path
     if overlay_rules:
         src = overlay.apply(path, work)  # returns scratch copy (or the original) ; raises on rule mismatch
@@ -362,12 +367,12 @@ class Job:
         src = resolve_src(h.src, self.hdir)
         lls = [compile_ir(src, defs, w, h.opt, overlay_rules=False, ubsan=h.ubsan, nofmt=h.nofmt)]
         for l in h.link:
-            lls.append(compile_ir(resolve_src(l, self.hdir), {k: v for k, v in defs.items() if k.startswith('VERIF_')}, w, h.opt, ubsan=h.ubsan, nofmt=h.nofmt))
+            lls.append(compile_ir(resolve_src(l, self.hdir), {k: v for k, v in defs.items() if k.startswith('VERIF_')}, w, h.opt, ubsan=h.ubsan, nofmt=h.nofmt, extra_flags=INTERPOSE if h.interpose else ()))
         lls.append(compile_ir(os.path.join(TOOL, 'models', 'stl_models.cpp'), {}, w, h.opt, overlay_rules=False, ubsan=False))
         ovs = [compile_ir(resolve_src(o, self.hdir), defs, w, h.opt, overlay_rules=False, ubsan=h.ubsan, nofmt=h.nofmt) for o in h.override]
         linked = os.path.join(w, 'linked.bc')
         red = os.path.join(w, 'red.bc'); redll = os.path.join(w, 'red.ll')
-        rkey = sha('|'.join(lls) + '#' + '|'.join(ovs) + '#' + ','.join(self.entry_list or [h.entry]) + ','.join(h.keep) + str(h.global_ctors) + '|'.join(h.noop) + 'r2')
+        rkey = sha('|'.join(lls) + '#' + '|'.join(ovs) + '#' + ','.join(self.entry_list or [h.entry]) + ','.join(h.keep) + str(h.global_ctors) + '|'.join(h.noop) + repr(sorted(h.replace.items())) + 'r2')
         rcache = os.path.join(CACHE, 'red-' + rkey + '.bc')
         if os.path.exists(rcache):
             shutil.copy(rcache, red)
@@ -400,6 +405,17 @@ class Job:
             if not any(re.fullmatch(rx, n) for n in nooped):
                 raise Inconclusive('noop stub pattern matched no void function: ' + rx)
         self.res['noop_stubs'] = nooped
+        # h.replace = {mangled original: harness symbol}: the original definition is renamed away and the harness function takes its
+        # name (for inline/linkonce functions that cannot be overridden at link time); every such replacement is a stub listed in evidence
+        for orig, repl in h.replace.items():
+            pat = re.compile(r'^(define [^\n]*?)@"?' + re.escape(orig) + r'"?(\([^\n]*)$', re.M)
+            def ren(mm):
+                head = re.sub(r'\b(linkonce_odr|linkonce|weak_odr|weak)\b', 'internal', mm.group(1)); tail = re.sub(r' comdat(\(\$[^)]*\))?', '', mm.group(2))
+                return head + '@"' + orig + '.verif_orig"' + tail
+            txt, k = pat.subn(ren, txt)
+            if k != 1 or ('@' + repl + '(') not in txt:
+                raise Inconclusive('replace stub: original %s (%d definitions) or replacement %s not found' % (orig, k, repl))
+            txt = txt.replace('@' + repl + '(', '@' + orig + '(')
         open(lk, 'w').write(txt); linked = lk
         rc, out, _, _ = run(['opt-14', '-internalize', '-internalize-public-api-list=' + api, '-globaldce', linked, '-o', red], timeout=300)
         if rc != 0:
@@ -751,8 +767,10 @@ def write_evidence(pid, tier, seed, mod, results, wall, nviol):
     ev = dict(property_id=pid, tier=tier, seed=seed, level=level, coverage=cov,
               assumptions=sorted(set(assum)) + ['allocation failure out of scope (--no-malloc-may-fail)', 'bounds as listed in coverage.bounds; nothing outside them is claimed'],
               wall_s=round(wall, 2), violations=nviol)
-    os.makedirs(os.path.join(VERIF, 'evidence'), exist_ok=True)
-    with open(os.path.join(VERIF, 'evidence', pid + '.json'), 'w') as f:
+    # evidence under /verif/evidence only describes runs against /repo itself; a run against another tree (VERIF_REPO=..., mutation testing) writes elsewhere
+    evdir = os.environ.get('VERIF_EVIDENCE_DIR') or (os.path.join(VERIF, 'evidence') if REPO == '/repo' else os.path.join(os.environ.get('VERIF_SCRATCH', '/var/tmp'), 'verif-evidence-alt'))
+    os.makedirs(evdir, exist_ok=True)
+    with open(os.path.join(evdir, pid + '.json'), 'w') as f:
         json.dump(ev, f, indent=1)
 
 
